@@ -16,6 +16,15 @@ from liquid.exceptions import LiquidInterrupt
 from liquid.exceptions import StopRender
 from liquid import undefined as _undef
 
+_ADDR = __import__("re").compile(r" at 0x[0-9a-fA-F]+")
+
+
+def _stable(v):
+    """A rendered text with the memory addresses of printed objects masked ('<... object at 0x7f...>' -> 'at 0x?'): no two renders agree on
+    them, and no property is about them.  Anything that is not plain text is handed on as it is."""
+    return _ADDR.sub(" at 0x?", v) if type(v) is str and " at 0x" in v else v
+
+
 MODES = {"strict": Mode.STRICT, "warn": Mode.WARN, "lax": Mode.LAX}
 UNDEFINED = {
     "default": _undef.Undefined,
@@ -108,7 +117,8 @@ class Outcome:
     def key(self) -> tuple:
         """Comparable summary: ('ok', value) or ('err', class name)."""
         if self.ok:
-            return ("ok", self.value)
+            # (a template that prints an object without a text of its own shows its memory address: two renders never agree on that)
+            return ("ok", _ADDR.sub(" at 0x?", self.value) if isinstance(self.value, str) else self.value)
         return ("err", self.err_class)
 
     def brief(self) -> Any:
@@ -149,7 +159,7 @@ class _cpu_guard:
 def call(fn: Callable[..., Any], *a: Any, **k: Any) -> Outcome:
     try:
         with _cpu_guard():
-            return Outcome(True, fn(*a, **k))
+            return Outcome(True, _stable(fn(*a, **k)))
     except Exception as e:  # noqa: BLE001 - the boundary recorder must see everything
         return Outcome(False, exc=e)
 
@@ -184,7 +194,7 @@ def call_async(fn: Callable[..., Any], *a: Any, **k: Any) -> Outcome:
     global _loop
     try:
         with _cpu_guard():
-            return Outcome(True, loop().run_until_complete(fn(*a, **k)))
+            return Outcome(True, _stable(loop().run_until_complete(fn(*a, **k))))
     except Exception as e:  # noqa: BLE001
         return Outcome(False, exc=e)
     except BaseException:
